@@ -97,7 +97,7 @@ def case_table(run, i):
     if not bins["start"]:
         return
     run.begin_case("table", i, cls="table:" + ("bintest" if i % 2 else "segmetrics"))
-    cna, seg = make_cna(bins), make_cna(segs)
+    cna, seg = make_cna(bins, odd=(i % 3 == 1)), make_cna(segs, odd=(i % 4 == 2))
     if i % 2 == 0:
         for rep in range(2):
             loc, spr, itv = _subset(rng, LOC), _subset(rng, SPREAD), _subset(rng, INTERVAL)
